@@ -15,6 +15,7 @@ It imports only core-only modules, so it links as a plain executable.
 import TlshVerif.Model.Params
 import TlshVerif.Spec.Tlsh
 import TlshVerif.DriverOps
+import TlshVerif.DriverCodec
 
 open TlshVerif
 
@@ -44,7 +45,7 @@ partial def loop (h : IO.FS.Stream) (ctx : Driver.Ctx) (c : Counts) (maxPrint : 
       loop h ctx { c with unknown := c.unknown + 1 } maxPrint
     | some (lhs, observed) =>
       let toks := lhs.splitOn " "
-      match Driver.eval ctx toks with
+      match (Driver.eval ctx toks <|> Driver.evalCodec ctx toks) with
       | none =>
         IO.println s!"UNKNOWN {c.lines} | {line.take 200}"
         loop h ctx { c with unknown := c.unknown + 1 } maxPrint
@@ -59,6 +60,12 @@ partial def loop (h : IO.FS.Stream) (ctx : Driver.Ctx) (c : Counts) (maxPrint : 
           if s != observed then
             c := { c with specMM := c.specMM + 1 }
             if c.specMM ≤ maxPrint then IO.println s!"MM spec {c.lines} {s} | {short}"
+        | none => pure ()
+        match r.specSet with
+        | some set =>
+          if !set.contains observed then
+            c := { c with specMM := c.specMM + 1 }
+            if c.specMM ≤ maxPrint then IO.println s!"MM spec {c.lines} one-of:{set} | {short}"
         | none => pure ()
         match r.self with
         | some (a, b) =>
